@@ -584,6 +584,51 @@ def inst_unknown_axis_chain():
                     api_replay=api)
 
 
+def inst_argtopk_sliced():
+    """da.argtopk(x, 2, axis=1)[a:, ::2]: rows selected with a symbolic bound, every other of the k columns.  argtopk pairs
+    values with their positions in blocks that are tuples, not arrays; whatever the optimizer does with the index, no getitem
+    may be left standing on such blocks (it could not be computed), and the advertised shape is NumPy's"""
+    def body(E):
+        import builtins
+
+        from . import catalog
+        from .common import _walk
+
+        w = catalog.W(E)
+        x = catalog.source(w, E, "x", (2, 2), lo=2)
+        coll = w.fn(catalog.NC, "new_collection")(x.node)
+        y = w.fn("dask_array.routines._topk", "argtopk")(coll, 2, axis=1)
+        a = E.int("a", 0)
+        E.assume(a <= x.node.shape[0])
+        out = y[E.slice(a, None, None), E.slice(None, None, 2)]
+        E.ensure("advertised-shape", EQ(tuple(out.shape), (x.node.shape[0] - a, 1)))
+        for stage in ("simplified", "lowered"):
+            st = catalog.stages(E, w, out.expr, {stage})[stage]
+            for n in _walk(st):
+                real = builtins.type(n).__dict__.get("_symx_real", builtins.type(n))
+                if real.__name__ == "SliceSlicesIntegers":
+                    E.ensure(f"{stage}-no-getitem-on-blocks-that-are-not-arrays", n.array.dtype != object)
+
+    def api(values):
+        import dask_array as da
+
+        cs = ((values["x0_0"], values["x0_1"]), (values["x1_0"], values["x1_1"]))
+        n0, n1, a = sum(cs[0]), sum(cs[1]), values["a"]
+        if n0 * n1 > 40000:
+            return dict(ok=False, detail="outside API replay range")
+        A = np.random.default_rng(0).permutation(n0 * n1).reshape(n0, n1)
+        x = da.from_array(A, chunks=cs)
+        want = np.argsort(-A, axis=1)[:, :2][a:, ::2]
+        try:
+            got = da.argtopk(x, 2, axis=1)[a:, ::2].compute(scheduler="sync")
+        except TypeError as ex:
+            return dict(ok=False, detail=f"argtopk(x, 2, axis=1)[{a}:, ::2], chunks {cs}: TypeError {ex}")
+        return dict(ok=bool(np.array_equal(got, want)), detail=f"argtopk(x, 2, axis=1)[{a}:, ::2], chunks {cs}")
+
+    return Instance("argtopk_sliced[rows a:, columns ::2]", body, {}, unit="Reduction._accept_slice + Blockwise._accept_slice (argtopk_preprocess)",
+                    api_replay=api)
+
+
 def inst_refusal(kind):
     """index forms the implementation does not support must raise, not return data: an integer dask array next to a list /
     NumPy array index on another axis, or two list indices (x's chunk sizes symbolic)"""
@@ -675,6 +720,7 @@ def instances(tier):
     for kind in ("dask-int+list", "dask-int+ndarray", "list+list"):
         out.append(inst_refusal(kind))
     out.append(inst_unknown_axis_chain())
+    out.append(inst_argtopk_sliced())
     out.append(inst_dask_int_values(1, 2))
     out.append(inst_dask_int_values(2, 2))
     if not q:
